@@ -7,6 +7,7 @@ import importlib
 import json
 import multiprocessing
 import os
+import re
 import subprocess
 import sys
 import tempfile
@@ -405,7 +406,7 @@ def finish(mod, modname, prop, args, seed, cases, results, t0):
                 continue
             os.makedirs(rep_dir, exist_ok=True)
             h = hashlib.sha1(json.dumps([cname, key, info["inputs"]], sort_keys=True).encode()).hexdigest()[:10]
-            path = os.path.join(rep_dir, "%s-%s.json" % (cname.replace("/", "_")[:60], h))
+            path = os.path.join(rep_dir, "%s-%s.json" % (re.sub(r"[^A-Za-z0-9_.+-]", "_", cname)[:60], h))
             with open(path, "w") as f:
                 json.dump({"property": prop, "module": modname, "tier": args.tier, "case": cname, "obligation": info["failure"]["name"], "message": info["failure"]["msg"], "inputs": info["inputs"], "found_by": info["how"], "replay": "bin/check %s --replay %s" % (prop, path)}, f, indent=1)
             violations.append(path)
@@ -457,7 +458,7 @@ def finish(mod, modname, prop, args, seed, cases, results, t0):
         return EXIT_VIOLATION
     if inconclusive:
         for s in inconclusive[:20]:
-            print("INCONCLUSIVE: %s" % s)
+            print("INCONCLUSIVE: %s" % s[:600].replace("\n", " "))
         return EXIT_INCONCLUSIVE
     return EXIT_OK
 
